@@ -129,7 +129,13 @@ def lean_check(prop, tier='quick'):
         if has_gen: mods = mods | lean_imports(gen_mod)
         try:
             rep = json.load(open(os.path.join(BUILD, 'gen_fns_report.json')))
-            res['translator'] = {'functions_translated': len(rep['translated']), 'not_translated': len(rep['untranslated']), 'parse_errors': rep['parse_errors']}
+            res['translator'] = {'functions_translated': len(rep['translated']), 'not_translated': len(rep['untranslated']), 'parse_errors': rep['parse_errors'],
+                                 'rejected_by_lean': rep.get('rejected_by_lean', [])}
+            # how many generated definitions are mentioned by a theorem of the equivalence / generated-level property files
+            import glob
+            text = ''.join(open(f).read() for f in glob.glob(os.path.join(LEAN, 'Sucds', 'Proofs', 'Gen*.lean')) + glob.glob(os.path.join(LEAN, 'Sucds', 'Proofs', 'C*GenAux.lean')) + glob.glob(os.path.join(LEAN, 'Sucds', 'Props', '*Gen.lean')))
+            names = [t['name'] for t in rep['translated']]
+            res['translator']['definitions_mentioned_by_theorems'] = sum(1 for n_ in names if re.search(r'(?<![A-Za-z_0-9])' + re.escape(n_) + r'(?![A-Za-z_0-9])', text))
         except Exception:
             pass
         proof_mods = [m for m in mods if m.startswith('Sucds.Props.') or m.startswith('Sucds.Proofs.')]
